@@ -21,7 +21,16 @@ def main():
     d, b = os.path.split(outpath)
     cfg['_journal'] = os.path.join(d, b.replace('out', 'journal', 1))
     from vlib import boot
-    boot.activate(impl=cfg.get('impl', 'c'))
+    if cfg.get('mode') == 'atheris':
+        # coverage instrumentation has to be in place while the package
+        # under test is imported
+        sys.path.insert(0, os.path.join(os.path.dirname(os.path.dirname(
+            os.path.abspath(__file__))), '.deps'))
+        import atheris
+        with atheris.instrument_imports(include=['zope.interface']):
+            boot.activate(impl=cfg.get('impl', 'c'))
+    else:
+        boot.activate(impl=cfg.get('impl', 'c'))
     from vlib import core
     mod = importlib.import_module('checks.' + cfg['prop'].lower())
     rec = core.Recorder(cfg['prop'], cfg, mod)
@@ -44,6 +53,19 @@ def main():
                                    int(cfg['seed']))
             elif cfg['mode'] == 'custom':
                 mod.run_custom(cfg, rec)
+            elif cfg['mode'] == 'atheris':
+                def finish():
+                    s = rec.summary()
+                    s['status'] = 'ok'
+                    s['extra'] = getattr(mod, 'EXTRA', None)
+                    with open(outpath + '.tmp', 'w') as f:
+                        json.dump(s, f, default=repr)
+                    os.replace(outpath + '.tmp', outpath)
+                    os._exit(0)
+                rec.run_atheris(mod.strategy(cfg), int(cfg['n']),
+                                int(cfg['seed']), finish,
+                                os.path.join(os.path.dirname(outpath),
+                                             'corpus-' + cfg['name']))
             else:
                 raise ValueError(cfg['mode'])
     except BaseException:
